@@ -1,6 +1,6 @@
 """C08 legs under another interpreter (python -m harness.c08_sub < specs.json > result.json).
 Runs the runtime leg (suspended generator/coroutine, stackscope.extract, ast oracle) for every program
-spec, and on 3.11+ also returns the per-site observations (store sequence as Gallina literals, real
+spec, and with --sites also returns the per-site observations (store sequence as Gallina literals, real
 describe_assignment_target / analyze_with_blocks results) so that the parent can hand them to Coq."""
 import json
 import sys
@@ -11,7 +11,7 @@ from . import c08_gen as G
 
 def main():
     specs = json.load(sys.stdin)
-    want_sites = "--sites" in sys.argv and G.PY >= (3, 11)
+    want_sites = "--sites" in sys.argv
     out = {"python": "%d.%d.%d" % sys.version_info[:3], "programs": 0, "contexts": 0, "syntax_skipped": 0,
            "problems": [], "stats": {}, "sites": {}}
     for n, spec in enumerate(specs):
